@@ -160,6 +160,9 @@ func genRigCase(r *rng.R) rigIn {
 					if (firstBody && ci == 1) || (!firstBody && r.Chance(1, 3)) {
 						bt = "other.Parcel"
 					}
+					if !firstBody && r.Chance(1, 3) {
+						bt = "[]" + bt // every element is validated
+					}
 					params = append(params, rigParam{name: "body", ty: bt, loc: "Body", wire: "body"})
 				case 1:
 					bodyKind = "form"
@@ -185,8 +188,8 @@ func genRigCase(r *rng.R) rigIn {
 				m.Annots = append(m.Annots, pAnnot{Name: "Security", Value: "sec0", Props: map[string]any{"scopes": []any{"read"}}}, pAnnot{Name: "Security", Value: "sec1"})
 				routeSec = [][]irSecComp{{{Name: "sec0", Scopes: []string{"read"}}}, {{Name: "sec1", Scopes: []string{}}}}
 			case 1:
-				m.Annots = append(m.Annots, pAnnot{Name: "Security", Value: "sec1", Props: map[string]any{"scopes": []any{"a", "b"}}})
-				routeSec = [][]irSecComp{{{Name: "sec1", Scopes: []string{"a", "b"}}}}
+				m.Annots = append(m.Annots, pAnnot{Name: "Security", Value: "sec1", Props: map[string]any{"scopes": []any{"a", "b&c"}}})
+				routeSec = [][]irSecComp{{{Name: "sec1", Scopes: []string{"a", "b&c"}}}}
 			}
 			if r.Chance(1, 6) {
 				m.Params = append(m.Params, pParam{Name: "ctx", Type: "context.Context"})
@@ -255,6 +258,9 @@ func genRigCase(r *rng.R) rigIn {
 						form[prm.wire] = []string{v}
 					case "Body":
 						q.Body = fmt.Sprintf(`{"name":%q,"count":%d}`, rng.Pick(r, []string{"n", "item one"}), r.Intn(50))
+						if strings.HasPrefix(prm.ty, "[]") {
+							q.Body = "[" + q.Body + fmt.Sprintf(`,{"name":"second","count":%d}]`, r.Intn(9))
+						}
 						if b, ok := over["body"]; ok {
 							q.Body = b
 						}
@@ -333,7 +339,17 @@ func genRigCase(r *rng.R) rigIn {
 					add(build("empty:"+prm.name, vals{prm.name: ""}, "", nil))
 				}
 			}
-			if bodyKind == "json" {
+			bodyIsSlice := false
+			for _, prm := range params {
+				if prm.loc == "Body" && strings.HasPrefix(prm.ty, "[]") {
+					bodyIsSlice = true
+				}
+			}
+			if bodyKind == "json" && bodyIsSlice {
+				add(build("body-slice-later-element-invalid", vals{"body": `[{"name":"ok","count":1},{"count":2}]`}, "", nil))
+				add(build("body-slice-first-element-invalid", vals{"body": `[{"count":1},{"name":"ok","count":2}]`}, "", nil))
+				add(build("body-slice-empty", vals{"body": `[]`}, "", nil))
+			} else if bodyKind == "json" {
 				add(build("body-missing-required", vals{"body": `{"count":3}`}, "", nil))
 				add(build("body-malformed", vals{"body": `{"name":`}, "", nil))
 				add(build("body-trailing-data", vals{"body": rng.Pick(r, []string{`{"name":"x","count":1} trailing`, `{"name":"x","count":1}{"name":"y","count":2}`, `{"name":"x","count":1}]`})}, "", nil))
